@@ -371,6 +371,12 @@ class Residue : public Engine {
         if (op.kind.rfind("dict.", 0) == 0 && r.chance(1, 2)) cls = ARR_LOWCARD;
         if ((op.kind == "adaptive.encode_with" || op.kind == "adaptive.decode") && op.u("enc") == VARINT_ADAPTIVE_BITMAP)
             cls = ARR_STRICT_INC16;
+        if ((op.kind == "adaptive.encode" || op.kind == "adaptive.decode") && r.chance(1, 30)) {
+            // unsorted input above 10000 elements: the sampling branch of the unique counter
+            n = 10001 + r.below(200);
+            cls = r.chance(2, 3) ? ARR_POOL : ARR_FULL64;
+            if (op.kind == "adaptive.decode") op.set("enc", VARINT_ADAPTIVE_TAGGED);
+        }
         op.mkarr("values") = gen_array(r, n, cls);
         // different data of the same length (and of the same class) for the self-history context
         op.mkarr("values2") = gen_array(r, n, cls);
@@ -427,6 +433,9 @@ class Residue : public Engine {
         uint64_t pat = c.out.kind >= 2 ? c.out.w : c.word;
         if (c.out.kind == 3) pat = (pat & 0xffffffffULL) | (pat << 32);
         alloc::set_fill(c.heap, c.word ^ 0x4ea9, pat);
+        // the process-wide PRNG is hidden state too: every context sees another stream
+        env_reseed(fnv1a(c.name.data(), c.name.size(), 0x15));
+        if (c.name == "clean") env_reseed(0);
         std::vector<std::function<void()>> calls;
         bool dummy_ok = true;
         if (c.history == 1 && op.arr("hist")) {
